@@ -104,6 +104,12 @@ enum Op {
     Len,
     More,
 }
+/// an operation of a multi-iterator history: an ordinary operation on iterator j, or cloning it into slot k
+#[derive(Clone, Debug)]
+enum MOp {
+    Op(Op),
+    Clone(usize),
+}
 #[derive(Clone, Debug)]
 enum Final {
     None,
@@ -136,6 +142,9 @@ struct Case {
     seed: u64,
     reps: usize,
     freeze: Option<(usize, usize)>,
+    /// multi-iterator history (C19): number of fresh iterators over the one collection; programs carry `@j:` tags
+    multi: usize,
+    mprogs: Vec<Vec<(usize, MOp, String)>>,
 }
 
 fn on_parse(s: &str) -> Option<u64> {
@@ -199,6 +208,8 @@ fn read_cases(input: &mut dyn BufRead) -> Vec<Case> {
                     seed: 0,
                     reps: 1,
                     freeze: None,
+                    multi: 0,
+                    mprogs: vec![],
                 })
             }
             "env" => {
@@ -241,6 +252,28 @@ fn read_cases(input: &mut dyn BufRead) -> Vec<Case> {
             "reps" => cur.as_mut().unwrap().reps = w[1].parse().unwrap(),
             "freeze" => cur.as_mut().unwrap().freeze = Some((w[1].parse().unwrap(), w[2].parse().unwrap())),
             "elem" => cur.as_mut().unwrap().env.elem = w[1].to_string(),
+            "multi" => {
+                let c = cur.as_mut().unwrap();
+                c.multi = w[1].parse().unwrap();
+                c.mprogs = vec![vec![]; c.nthreads];
+            }
+            "mprog" => {
+                let c = cur.as_mut().unwrap();
+                let t: usize = w[1].parse().unwrap();
+                c.mprogs[t] = w[2..]
+                    .iter()
+                    .map(|s| {
+                        let (tag, rest) = s.split_once(':').unwrap();
+                        let j: usize = tag.trim_start_matches('@').parse().unwrap();
+                        let p: Vec<&str> = rest.split(':').collect();
+                        if p[0] == "clone" {
+                            (j, MOp::Clone(p[1].parse().unwrap()), rest.to_string())
+                        } else {
+                            (j, MOp::Op(op_parse(rest)), rest.to_string())
+                        }
+                    })
+                    .collect();
+            }
             "sched" => {
                 let c = cur.as_mut().unwrap();
                 c.sched = match w[1] {
@@ -339,6 +372,22 @@ fn panic_kind(p: &Box<dyn std::any::Any + Send>) -> String {
 // ---------------------------------------------------------------- shim glue
 
 static C_ADDR: AtomicUsize = AtomicUsize::new(0);
+/// multi-iterator histories: every recorded line is tagged with the iterator the thread is operating on
+static MULTI: std::sync::atomic::AtomicBool = std::sync::atomic::AtomicBool::new(false);
+thread_local! {
+    static CUR_ITER: Cell<usize> = const { Cell::new(0) };
+    static IN_CLONE: Cell<bool> = const { Cell::new(false) };
+    /// address of the position counter of the iterator that is being cloned
+    static ORIG_ADDR: Cell<usize> = const { Cell::new(0) };
+}
+fn mrecord(line: String) {
+    if MULTI.load(Ordering::SeqCst) {
+        let j = CUR_ITER.with(|c| c.get());
+        sched::record(format!("#{} {}", j, line));
+    } else {
+        sched::record(line);
+    }
+}
 static MAIN_TID: AtomicUsize = AtomicUsize::new(0);
 
 fn before(_op: &AOp) {
@@ -366,6 +415,17 @@ fn after(op: &AOp, r: usize) {
         Kind::Store => "store",
         Kind::FetchAdd => "add",
     };
+    if MULTI.load(Ordering::SeqCst) {
+        // one counter per iterator (slices and ranges); the accesses of a clone() are reported apart
+        if IN_CLONE.with(|c| c.get()) {
+            // C: the counter of the original; N: any other counter (the one of the clone under construction)
+            let which = if op.addr == ORIG_ADDR.with(|c| c.get()) { "C" } else { "N" };
+            mrecord(format!("K {} atom {} {} {} {} {:?}", t, which, kind, op.arg, r, op.ord));
+        } else {
+            mrecord(format!("L {} atom C {} {} {} {:?}", t, kind, op.arg, r, op.ord));
+        }
+        return;
+    }
     sched::record(format!("L {} atom {} {} {} {} {:?}", t, site, kind, op.arg, r, op.ord));
 }
 
@@ -629,6 +689,240 @@ where
     out
 }
 
+/// address and size of the elements of the collection the references must point into (C19)
+static BASE_ADDR: AtomicUsize = AtomicUsize::new(0);
+static ELEM_SIZE: AtomicUsize = AtomicUsize::new(0);
+
+fn check_addr<T: Val>(x: &T) {
+    if let Some(a) = x.addr() {
+        let base = BASE_ADDR.load(Ordering::SeqCst);
+        let sz = ELEM_SIZE.load(Ordering::SeqCst);
+        if sz != 0 && a != base.wrapping_add(sz.wrapping_mul(x.value() as usize)) {
+            mrecord(format!("X reference-not-into-collection value={} addr_offset={}", x.value(), a.wrapping_sub(base)));
+        }
+    }
+}
+
+/// the program of thread `t` in a multi-iterator history
+fn thread_body_multi<I>(its: &[std::sync::OnceLock<I>], prog: &[(usize, MOp, String)], t: usize)
+where
+    I: ConcurrentIter + Clone + AtomicIter<<I as ConcurrentIter>::Item>,
+    I::Item: Val,
+{
+    sched::TID.with(|c| c.set(t));
+    let mut kept: Vec<I::Item> = Vec::with_capacity(64);
+    let acc: RefCell<Vec<(Option<u64>, u64)>> = RefCell::new(Vec::new());
+    for (j, mop, tok) in prog {
+        CUR_ITER.with(|c| c.set(*j));
+        let it = match its[*j].get() {
+            Some(it) => it,
+            None => continue,
+        };
+        let r0 = catch_unwind(AssertUnwindSafe(|| sched::sched_point()));
+        if r0.is_err() {
+            break;
+        }
+        match mop {
+            MOp::Clone(k) => {
+                // not an operation of the single-iterator model: reported apart (K lines)
+                mrecord(format!("K {} clone {}", t, k));
+                ORIG_ADDR.with(|c| c.set(<I as AtomicIter<I::Item>>::counter(it) as *const _ as usize));
+                IN_CLONE.with(|c| c.set(true));
+                let r = catch_unwind(AssertUnwindSafe(|| {
+                    let cl = it.clone();
+                    // the position the clone starts at (read by the harness; the clone is not shared yet)
+                    let start = <I as AtomicIter<I::Item>>::counter(&cl).current();
+                    (cl, start)
+                }));
+                IN_CLONE.with(|c| c.set(false));
+                match r {
+                    Ok((cl, start)) => {
+                        let _ = its[*k].set(cl);
+                        mrecord(format!("K {} cloned {} start={}", t, k, start));
+                    }
+                    Err(_) => mrecord(format!("K {} clone-panicked {}", t, k)),
+                }
+                continue;
+            }
+            MOp::Op(op) => {
+                mrecord(format!("L {} call", t));
+                mrecord(format!("E {} call {}", t, tok));
+                acc.borrow_mut().clear();
+                let r = catch_unwind(AssertUnwindSafe(|| -> String {
+                    match op {
+                        Op::Next(v) => {
+                            let r: Option<(Option<u64>, I::Item)> = match v {
+                                NVar::IdVal => it.next_id_and_value().map(|x| (Some(x.idx as u64), x.value)),
+                                NVar::Val => it.next().map(|x| (None, x)),
+                                NVar::Values => it.values().next().map(|x| (None, x)),
+                                NVar::IdsValues => it.ids_and_values().next().map(|(i, x)| (Some(i as u64), x)),
+                            };
+                            match r {
+                                None => "none".into(),
+                                Some((i, x)) => {
+                                    check_addr(&x);
+                                    let v = x.value();
+                                    kept.push(x);
+                                    format!("one:{}/{}/1", ou(i), v)
+                                }
+                            }
+                        }
+                        Op::Chunk(n, k) => match it.next_chunk(*n as usize) {
+                            None => "none".into(),
+                            Some(chunk) => {
+                                let b = chunk.begin_idx as u64;
+                                let mut values = chunk.values;
+                                let ann0 = values.len();
+                                let mut taken = vec![];
+                                let mut i = 0u64;
+                                while i < *k {
+                                    match values.next() {
+                                        Some(x) => {
+                                            check_addr(&x);
+                                            taken.push((Some(b.wrapping_add(i)), x.value()));
+                                            kept.push(x);
+                                        }
+                                        None => break,
+                                    }
+                                    i += 1;
+                                }
+                                let ann1 = values.len();
+                                drop(values);
+                                format!("chunk:{}:{}:{}:{}:{}", b, runs(&taken), ann0, taken.len(), ann1)
+                            }
+                        },
+                        Op::Loop(l, c, _) => {
+                            let mut visit = |i: Option<u64>, x: I::Item| {
+                                check_addr(&x);
+                                acc.borrow_mut().push((i, x.value()));
+                                kept.push(x);
+                            };
+                            match l {
+                                LoopK::ForEach => it.for_each(*c as usize, |x| visit(None, x)),
+                                LoopK::Enum => it.enumerate_for_each(*c as usize, |i, x| visit(Some(i as u64), x)),
+                                LoopK::Fold => {
+                                    let _ = it.fold(*c as usize, 0u64, |a, x| {
+                                        visit(None, x);
+                                        a + 1
+                                    });
+                                }
+                            }
+                            format!("loop:{}", runs(&acc.borrow()))
+                        }
+                        Op::Skip => {
+                            it.skip_to_end();
+                            "unit".into()
+                        }
+                        Op::Len => format!("len:{}", ou(it.try_get_len().map(|x| x as u64))),
+                        Op::More => match it.has_more() {
+                            HasMore::Yes(n) => format!("more:yes:{}", n),
+                            HasMore::Maybe => "more:maybe".into(),
+                            HasMore::No => "more:no".into(),
+                        },
+                        _ => "unsupported".into(),
+                    }
+                }));
+                match r {
+                    Ok(res) => mrecord(format!("E {} ret {} | {}", t, res, drops_str(&take_drops()))),
+                    Err(p) => {
+                        if p.downcast_ref::<sched::HangAbort>().is_some() {
+                            mrecord(format!("E {} ret {} | -", t, HANG));
+                            break;
+                        }
+                        let k = panic_kind(&p);
+                        mrecord(format!("E {} ret panic:{}:{} | {}", t, k, runs(&acc.borrow()), drops_str(&take_drops())));
+                    }
+                }
+            }
+        }
+    }
+    caller_drop(kept);
+    sched::finish();
+}
+
+/// runs a multi-iterator history: `case.multi` fresh iterators made by `mk`, clones created by the programs
+fn drive_multi<I>(case: &Case, mk: &dyn Fn() -> I) -> Vec<String>
+where
+    I: ConcurrentIter + Clone + AtomicIter<<I as ConcurrentIter>::Item>,
+    I::Item: Val,
+{
+    let slots = case
+        .mprogs
+        .iter()
+        .flat_map(|p| p.iter())
+        .map(|(j, m, _)| match m {
+            MOp::Clone(k) => (*j).max(*k) + 1,
+            _ => *j + 1,
+        })
+        .max()
+        .unwrap_or(0)
+        .max(case.multi);
+    let its: Vec<std::sync::OnceLock<I>> = (0..slots).map(|_| std::sync::OnceLock::new()).collect();
+    for j in 0..case.multi {
+        let _ = its[j].set(mk());
+    }
+    MULTI.store(true, Ordering::SeqCst);
+    MAIN_TID.store(case.nthreads, Ordering::SeqCst);
+    let (mode, sched_v) = match &case.sched {
+        Some(s) => (sched::Mode::Replay, s.clone()),
+        None => (sched::Mode::Random, vec![]),
+    };
+    sched::install(mode, case.nthreads, sched_v, case.seed, 4000, None);
+    {
+        let its = &its;
+        std::thread::scope(|s| {
+            for t in 0..case.nthreads {
+                let prog = &case.mprogs[t];
+                s.spawn(move || thread_body_multi(its, prog, t));
+            }
+        });
+    }
+    let complete = {
+        let g = sched::lock();
+        !g.as_ref().unwrap().abort
+    };
+    drop(its);
+    MULTI.store(false, Ordering::SeqCst);
+    let st = sched::take().unwrap();
+    let mut out = vec![format!("case {}", case.id)];
+    out.push(format!(
+        "sched {}",
+        if st.chosen.is_empty() { ".".to_string() } else { st.chosen.iter().map(|x| x.to_string()).collect::<Vec<_>>().join(",") }
+    ));
+    out.extend(st.trace);
+    out.push(format!("complete {}", if complete { 1 } else { 0 }));
+    out.push("end".into());
+    out
+}
+
+fn run_case_multi(case: &Case) -> Vec<String> {
+    let env = &case.env;
+    let len = env.len;
+    match env.kind.as_str() {
+        "slice" => {
+            let v: Vec<E> = (0..len).map(E::new).collect();
+            BASE_ADDR.store(v.as_ptr() as usize, Ordering::SeqCst);
+            ELEM_SIZE.store(std::mem::size_of::<E>(), Ordering::SeqCst);
+            let sl = v.as_slice();
+            let mut out = drive_multi(case, &|| sl.into_con_iter());
+            ELEM_SIZE.store(0, Ordering::SeqCst);
+            // the collection is unmodified and fully usable afterwards
+            let intact = v.len() as u64 == len && v.iter().enumerate().all(|(i, x)| x.orig && x.payload == payload(i as u64));
+            let n = out.len();
+            out.insert(n - 1, format!("S intact={} clones={} drops={}", if intact { 1 } else { 0 }, CLONES.load(Ordering::SeqCst), TOTAL_DROPS.load(Ordering::SeqCst)));
+            CALLER_PHASE.store(true, Ordering::SeqCst);
+            drop(v);
+            CALLER_PHASE.store(false, Ordering::SeqCst);
+            out
+        }
+        "range" => {
+            let r = (env.start as usize)..(env.end as usize);
+            drive_multi(case, &|| IntoConcurrentIter::into_con_iter(r.clone()))
+        }
+        k => vec![format!("case {}", case.id), format!("unsupported kind {} for a multi-iterator history", k), "end".into()],
+    }
+}
+
 macro_rules! array_case {
     ($case:expr, $($n:literal),*) => {
         match $case.env.len {
@@ -681,6 +975,11 @@ fn run_case(case: &Case) -> Vec<String> {
     SRC_CRASH.store(case.env.crash.map(|x| x as usize).unwrap_or(usize::MAX), Ordering::SeqCst);
     CALLER_PHASE.store(false, Ordering::SeqCst);
     let env = &case.env;
+    if case.multi > 0 {
+        CLONES.store(0, Ordering::SeqCst);
+        TOTAL_DROPS.store(0, Ordering::SeqCst);
+        return run_case_multi(case);
+    }
     if env.elem == "zst" {
         return run_case_zst(case);
     }
